@@ -105,7 +105,7 @@ def main():
     for pid in pids:
         try:
             r = measure(pid, tier, seed)
-        except SystemExit as e:
+        except (SystemExit, Exception) as e:
             print("%s: %s" % (pid, str(e)[:500]))
             continue
         allres[pid] = r
